@@ -544,6 +544,18 @@ func (s *c31Sess) do(op []string) []string {
 		s.fc = nil
 		f.gate.Release()
 		return strings.Fields(s.wait(f.done))
+	case op[1] == "fetch" && len(op) == 3:
+		// the blob reaches this origin's cache without an upload commit: internal transfer from
+		// another origin (the same happens on a download from the backend) — no flag, no task
+		b, ok := c31ParseBlob(op[2])
+		if !ok {
+			return nil
+		}
+		blob := c31BlobTab[b]
+		if err := s.client.TransferBlob(blob.digest, bytes.NewReader(blob.content), uint64(len(blob.content))); err != nil {
+			return []string{"err"}
+		}
+		return []string{"ok"}
 	case op[1] == "del" && len(op) == 3:
 		b, ok := c31ParseBlob(op[2])
 		if !ok {
@@ -739,7 +751,7 @@ func c31Alphabet(keys []string, blobs []string) [][]string {
 		ops = append(ops, []string{"op", "upload", k}, []string{"op", "uploadb", k}, []string{"op", "uploade", k}, []string{"op", "exec", k})
 	}
 	for _, b := range blobs {
-		ops = append(ops, []string{"op", "fcb", b}, []string{"op", "del", b})
+		ops = append(ops, []string{"op", "fcb", b}, []string{"op", "del", b}, []string{"op", "fetch", b})
 	}
 	return ops
 }
@@ -796,6 +808,22 @@ func TestVerif_C31(t *testing.T) {
 			tr.Count("prefixed_exhaustive_cases", 1)
 		}
 	}
+	// … after the blob was cached without a commit, and after it was written back (flag cleared):
+	// the conflict path on a cached blob without persist flag, under either namespace
+	alpha2 := c31Alphabet([]string{"k0", "k1"}, []string{"b0"})
+	for _, pre := range [][][]string{
+		{{"op", "fetch", "b0"}},
+		{{"op", "upload", "k0"}, {"op", "exec", "k0"}},
+	} {
+		for _, a := range alpha2 {
+			for _, b := range alpha2 {
+				if verifh.Thorough() || a[1] == "upload" || a[1] == "uploadb" || b[1] == "upload" || b[1] == "uploade" {
+					c31Run(base, tr, verifh.Case{Ops: append(append([][]string{}, pre...), a, b)})
+					tr.Count("prefixed_exhaustive_cases", 1)
+				}
+			}
+		}
+	}
 	// (b) random histories over 2 blobs x 2 namespaces
 	r := verifh.NewRand(verifh.Seed(), "c31")
 	keys := []string{"k0", "k1", "k2", "k3"}
@@ -822,8 +850,10 @@ func TestVerif_C31(t *testing.T) {
 				o = []string{"op", "fcb", b}
 			case x < 84:
 				o = []string{"op", "fcf"}
-			case x < 89:
+			case x < 87:
 				o = []string{"op", "del", b}
+			case x < 90:
+				o = []string{"op", "fetch", b}
 			case x < 94:
 				o = []string{"op", r.Pick("down", "down", "upb"), r.Pick("ns0", "ns1")}
 			default:
